@@ -165,7 +165,7 @@ func filterCheckersList(infoList []*linter.CheckerInfo) []*linter.CheckerInfo {
 		if flagEnableAll {
 			disableArg = ""
 		} else {
-			disableArg = "#experimental,#opinionated,#performance"
+			disableArg = "#experimental,#opinionated,#performance,#security"
 		}
 	}
 
